@@ -16,12 +16,16 @@ package main
 //@   invariant[C01,C07:pending-entries-complete] forall_str(k, in(k, self.requests) ==> self.requests[k] != nil && self.requests[k].req != nil && self.requests[k].respChan != nil && !closed(self.requests[k].respChan))
 
 //@ func isHopByHopHeader props(C02,C03)
+//@   local name param 0 0
 //@   assigns nothing
 //@   ensures[C02:hop-spec] r0 <==> hop(name)
 
 // An agent call is a poll when it names no request id, an upload when it is a POST naming one, and a fetch otherwise;
 // exactly one of the three handlers runs, with the id the agent named (C01, C04).
 //@ func (*proxy).handleAgentRequest props(C01,C04,C07)
+//@   local p recv 0 0
+//@   local r param 0 1
+//@   local w param 0 0
 //@   requires p != nil && w != nil && r != nil && r.Header != nil && p.requests != nil && !held(p.Mutex) && p.requestIDs != nil
 //@   assigns heap
 //@   ghost handled int = 0
@@ -39,6 +43,7 @@ package main
 // newID: every request id is derived from exactly one fresh draw of the proxy's own generator (taken under the lock),
 // and from nothing a client controls. (That draws differ from each other is probabilistic and not decided here.)
 //@ func (*proxy).newID props(C01,C07)
+//@   local p recv 0 0
 //@   requires p != nil && p.randGenerator != nil && !held(p.Mutex)
 //@   assigns mapof(p.requests)
 //@   ghost draws int = 0
@@ -55,6 +60,14 @@ package main
 // removed (C02); it is stored and enqueued under one and the same fresh id, once (C01, C04); the response
 // relayed to this client is the one received on this request's own rendezvous channel (C01, C03).
 //@ func (*proxy).ServeHTTP props(C01,C02,C03,C04,C07)
+//@   local id define 0 0 _ . newID ( )
+//@   local name range 0 0 _ . Header
+//@   local p recv 0 0
+//@   local pending define 0 0 newPendingRequest ( _ )
+//@   local r param 0 1
+//@   local resp define 0 0 <- _ . respChan
+//@   local vals range 1 0 _ . Trailer
+//@   local w param 0 0
 //@   requires p != nil && w != nil && r != nil && r.Header != nil && canonicalKeys(r.Header) && p.requests != nil && p.randGenerator != nil && rwHeader[w] != nil
 //@   requires !held(p.Mutex) && p.requestIDs != nil && !closed(p.requestIDs)
 //@   ghost enq int = 0
@@ -127,6 +140,12 @@ package main
 // Agent side of the rendezvous (C01): a fetch serialises, and an upload is parsed against and delivered to,
 // exactly the pending entry stored under the request id the agent named; an upload is handed over at most once.
 //@ func (*proxy).handleAgentPostResponse props(C01,C07)
+//@   local p recv 0 0
+//@   local pending define 0 0 _ . requests [ _ ]
+//@   local r param 0 1
+//@   local requestID param 0 2
+//@   local resp define 0 0 http . ReadResponse ( bufio . NewReader ( _ . Body ) , _ . req )
+//@   local w param 0 0
 //@   requires p != nil && w != nil && r != nil && p.requests != nil && !held(p.Mutex)
 //@   ghost sends int = 0
 //@   ghost parsed ref = nil
@@ -140,6 +159,11 @@ package main
 //@     do sends = sends + 1
 
 //@ func (*proxy).handleAgentGetRequest props(C01,C02,C07)
+//@   local p recv 0 0
+//@   local pending define 0 0 _ . requests [ _ ]
+//@   local r param 0 1
+//@   local requestID param 0 2
+//@   local w param 0 0
 //@   requires p != nil && w != nil && r != nil && p.requests != nil && !held(p.Mutex)
 //@   assigns mapof(p.requests), mapof(rwHeaderOf(w)), ghost rwStatus[w], ghost rwWrites[w]
 //@   ghost writes int = 0
@@ -158,6 +182,8 @@ package main
 
 // Hand-off of request ids to pollers (C04): the reply holds exactly the ids received from the channel, in order.
 //@ func (*proxy).waitForRequestIDs props(C04,C07)
+//@   local p recv 0 0
+//@   local requestIDs var 0 0 [ ] string
 //@   requires p != nil && p.requestIDs != nil
 //@   assigns nothing
 //@   ghost n int = 0
@@ -173,6 +199,9 @@ package main
 // A poll is answered with the serialisation of exactly the ids this poll took from the queue (C04: an id handed to one
 // poller is not handed to another, and nothing else is reported).
 //@ func (*proxy).handleAgentListRequests props(C04,C07)
+//@   local p recv 0 0
+//@   local r param 0 1
+//@   local w param 0 0
 //@   requires p != nil && w != nil && r != nil && p.requestIDs != nil
 //@   ghost ids []string
 //@   ghost waited int = 0
